@@ -25,9 +25,10 @@ structure Rel (p : PState) : Prop where
   walImm : (p.c.immWal = none ∧ p.s.imm = none) ∨
     (∃ wi im bs, p.c.immWal = some wi ∧ p.s.imm = some im ∧ wi < p.c.wal ∧
       lookup p.d.wals wi = some bs ∧ ∀ e, e ∈ batchesFlat bs ↔ e ∈ im)
-  /-- every other WAL on disk is older than what the manifest names (waiting to be removed) -/
-  others : ∀ x ∈ p.d.wals, x.1 = p.c.wal ∨ some x.1 = p.c.immWal ∨ x.1 < p.c.w0
-  walMax : ∀ x ∈ p.d.wals, x.1 ≤ p.c.wal
+  /-- every other WAL on disk is older than what the manifest names (waiting to be removed) or
+  empty (created and not yet written: the next WAL during recovery) -/
+  others : ∀ x ∈ p.d.wals, x.1 = p.c.wal ∨ some x.1 = p.c.immWal ∨ x.1 < p.c.w0 ∨ x.2 = []
+  walMax : ∀ x ∈ p.d.wals, x.1 ≤ p.c.wal ∨ x.2 = []
 
 theorem w0_le_wal {p : PState} (h : Rel p) : p.c.w0 ≤ p.c.wal := by
   unfold Ctx.w0
@@ -79,7 +80,7 @@ theorem rel_recover {p : PState} (h : Rel p) :
         rw [← hn, h.tables q.1 f hf] at he
         exact Or.inr (Or.inr ⟨q.1, f, hf, he⟩)
       · have hlx : lookup p.d.wals x.1 = some x.2 := lookup_of_mem _ _ _ hnd hx
-        rcases h.others x hx with h1 | h1 | h1
+        rcases h.others x hx with h1 | h1 | h1 | h1
         · rw [h1, hlM] at hlx
           injection hlx with hlx
           exact Or.inl ((hmM e).mp (hlx ▸ he))
@@ -93,6 +94,7 @@ theorem rel_recover {p : PState} (h : Rel p) :
             rw [him]
             exact (hmI e).mp (hlx ▸ he)
         · omega
+        · rw [h1] at he; simp [batchesFlat] at he
     · rintro (he | he | ⟨j, f, hf, he⟩)
       · refine Or.inr ⟨(p.c.wal, bsM), mem_of_lookup _ _ _ hlM, w0_le_wal h, (hmM e).mpr he⟩
       · rcases h.walImm with ⟨_, hn⟩ | ⟨wi, im, bs, hwi, him, _, hlI, hmI⟩
